@@ -259,6 +259,10 @@ pub struct Case {
     pub revoke: Option<Revoke>,
     pub pre_register_yields: u32,
     pub final_shutdown: bool,
+    /// C08: while the revocation is issued, another connected client keeps sending datagrams to the
+    /// revoked connection (steady inbound traffic), and the revoked client keeps reading
+    #[serde(default)]
+    pub flood: bool,
     pub seed: u64,
 }
 
@@ -311,6 +315,9 @@ fn run_once(case: &Case, fault: Fault, ctx: &Ctx, check_revoke: bool) -> RunInfo
         );
         let n = case.attempts.len();
         let mut clients: Vec<Option<WsClient>> = vec![];
+        let flood_stop = Arc::new(std::sync::atomic::AtomicBool::new(false));
+        let victim_ended = Arc::new(std::sync::atomic::AtomicBool::new(false));
+        let mut flooding = false;
         let mut accepted: Vec<bool> = vec![];
         for (ai, a) in case.attempts.iter().enumerate() {
             let (mut server_end, mut client_end) = byte_pipe(case.seed ^ ai as u64);
@@ -330,6 +337,7 @@ fn run_once(case: &Case, fault: Fault, ctx: &Ctx, check_revoke: bool) -> RunInfo
                 }
             }
             let server_state = server_end.state();
+            let server_tx = server_end.tx_chan();
             let sk = secret(a.key);
             let mut ws = WsClient {
                 io: tokio_websockets::ClientBuilder::new().take_over(client_end),
@@ -427,6 +435,47 @@ fn run_once(case: &Case, fault: Fault, ctx: &Ctx, check_revoke: bool) -> RunInfo
             if let Some(r) = revoker {
                 let _ = tokio::time::timeout(Duration::from_secs(1), r).await;
             }
+            let mut ws = Some(ws);
+            if let (Some(Revoke::AfterRegistration { .. }), true, true) = (&case.revoke, ai + 1 == n && ok && client_ok, case.flood) {
+                // a connected client of another endpoint floods the connection about to be revoked
+                if let Some(f) = (0..ai).find(|j| case.attempts[*j].key != a.key && clients[*j].is_some()) {
+                    let mut flooder = clients[f].take().expect("checked");
+                    let stop = flood_stop.clone();
+                    let dst = sk.public();
+                    tokio::task::spawn_local(async move {
+                        let mut k = 0u32;
+                        while !stop.load(std::sync::atomic::Ordering::SeqCst) && k < 40_000 {
+                            for _ in 0..16 {
+                                k += 1;
+                                let frame = crate::props::relayreg::enc_datagram(dst.as_bytes(), 0, None, &[0x5a; 600]);
+                                if flooder.send(frame).await.is_err() {
+                                    return;
+                                }
+                            }
+                            tokio::time::sleep(Duration::from_millis(1)).await;
+                        }
+                    });
+                    // the revoked client reads everything it is sent, slower than the flood arrives (one frame per
+                        // virtual ms through a 4 kB socket buffer), so the relay always has another datagram queued
+                        // for it; the flag records the end of its stream
+                    server_tx.lock().unwrap().limit = Some(4096);
+                    let mut victim = ws.take().expect("present");
+                    let ended = victim_ended.clone();
+                    tokio::task::spawn_local(async move {
+                        loop {
+                            match victim.next().await {
+                                None | Some(Err(_)) => break,
+                                Some(Ok(_)) => tokio::time::sleep(Duration::from_millis(1)).await,
+                            }
+                        }
+                        ended.store(true, std::sync::atomic::Ordering::SeqCst);
+                    });
+                    flooding = true;
+                    ctx.count("fault.flood_towards_revoked_connection");
+                    // let the flood reach a steady state before the revocation
+                    tokio::time::sleep(Duration::from_millis(20)).await;
+                }
+            }
             if let (Some(Revoke::AfterRegistration { delay_ms, by_endpoint }), true) = (&case.revoke, ai + 1 == n && ok) {
                 tokio::time::sleep(Duration::from_millis(*delay_ms)).await;
                 let ids = access.ids.lock().unwrap().clone();
@@ -438,7 +487,7 @@ fn run_once(case: &Case, fault: Fault, ctx: &Ctx, check_revoke: bool) -> RunInfo
                 }
             }
             accepted.push(ok);
-            clients.push(if ok && client_ok { Some(ws) } else { None });
+            clients.push(if ok && client_ok { ws } else { None });
         }
         // C08 oracle: within 2 virtual s the revoked connection is no longer served
         if check_revoke {
@@ -449,7 +498,10 @@ fn run_once(case: &Case, fault: Fault, ctx: &Ctx, check_revoke: bool) -> RunInfo
                 let disconnected = access.log.lock().unwrap().iter().any(|e| *e == AcEvent::Disconnect(rc));
                 let last = n - 1;
                 let mut still_open = false;
-                if let Some(ws) = clients[last].as_mut() {
+                if flooding {
+                    still_open = !victim_ended.load(std::sync::atomic::Ordering::SeqCst);
+                    flood_stop.store(true, std::sync::atomic::Ordering::SeqCst);
+                } else if let Some(ws) = clients[last].as_mut() {
                     // the client's stream must have ended
                     let r = tokio::time::timeout(Duration::from_millis(10), ws.next()).await;
                     still_open = r.is_err();
@@ -457,7 +509,7 @@ fn run_once(case: &Case, fault: Fault, ctx: &Ctx, check_revoke: bool) -> RunInfo
                 if accepted[last] && (!disconnected || still_open) {
                     let how = match &case.revoke {
                         Some(Revoke::AfterAdmission { by_endpoint, .. }) => format!("between-admission-and-registration:{}", if *by_endpoint { "by-endpoint-id" } else { "by-connection-id" }),
-                        Some(Revoke::AfterRegistration { by_endpoint, .. }) => format!("after-registration:{}", if *by_endpoint { "by-endpoint-id" } else { "by-connection-id" }),
+                        Some(Revoke::AfterRegistration { by_endpoint, .. }) => format!("after-registration{}:{}", if flooding { "-under-steady-inbound-traffic" } else { "" }, if *by_endpoint { "by-endpoint-id" } else { "by-connection-id" }),
                         None => "?".into(),
                     };
                     info.lock().unwrap().violation = Some((
@@ -627,6 +679,7 @@ impl Typed for C07 {
             revoke: None,
             pre_register_yields: rng.range(0, 3) as u32,
             final_shutdown: rng.coin(),
+            flood: false,
             seed: rng.next_u64(),
         }
     }
@@ -742,6 +795,7 @@ impl Typed for C08 {
             revoke: Some(revoke),
             pre_register_yields: rng.range(0, 4) as u32,
             final_shutdown: rng.coin(),
+            flood: rng.coin(),
             seed: rng.next_u64(),
         }
     }
